@@ -336,6 +336,21 @@ func adversaryDoc(family string, n int) string {
 			fmt.Fprintf(&f, "k%d: %d, ", i, i)
 		}
 		b.WriteString("{ any(x: {" + f.String() + "}) any(x: {" + f.String() + "}) }")
+	case "many-unknown-args":
+		// more (unknown) arguments than the field or directive declares, on a field that declares one
+		var f strings.Builder
+		for i := 0; i < n; i++ {
+			fmt.Fprintf(&f, "u%d: %d, ", i, i)
+		}
+		b.WriteString("{ j(a: 1, " + f.String() + ") i @skip(if: true, " + f.String() + ") o(" + f.String() + ") }")
+	case "invalid-utf8-in-literals":
+		// bytes that are not UTF-8 inside string literals that error messages quote back
+		bad := []string{"caf\xe9", "\xff\xfe", "ab\xe6\x97", "\xf0\x9f\x98", "\x80", "ok\xc3"}
+		b.WriteString("{ ")
+		for i := 0; i < n && i < 40; i++ {
+			fmt.Fprintf(&b, "k%d: j(a: \"%s\") ", i, bad[i%len(bad)])
+		}
+		b.WriteString("o(a: {v: \"" + bad[n%len(bad)] + "\", zz: \"" + bad[(n+1)%len(bad)] + "\"}) i @skip(if: \"" + bad[(n+2)%len(bad)] + "\") }")
 	case "undefined-everywhere":
 		b.WriteString("query($a: Nope, $b: [In!]) { nope(x: $zz, y: {a: [$b, {c: $q}]}) @nope(a: $a) { ...Missing ... on Ghost { x @skip } } }" + rep(" ", n))
 	}
@@ -426,10 +441,10 @@ var adversarySchemaFamilies = []string{"iface-chain", "iface-cycle-behind-type",
 
 var adversaryFamilies = []string{"fanout-introspection", "fanout-field", "fanout-top", "fanout-subscription", "fanout-fields", "cycle-through-fields", "mutual-overlap", "exclusive-then-shared", "shared-then-exclusive", "self-cycle",
 	"deep-alias", "wide-same-name", "wide-conflicts", "many-spreads-same", "many-fragments-together", "nested-inline", "undefined-everywhere",
-	"deep-object-args-equal", "deep-object-args-differ", "deep-object-args-reordered", "deep-list-args-equal", "deep-object-lists-equal", "deep-default-value", "wide-object-args"}
+	"deep-object-args-equal", "deep-object-args-differ", "deep-object-args-reordered", "deep-list-args-equal", "deep-object-lists-equal", "deep-default-value", "wide-object-args", "many-unknown-args", "invalid-utf8-in-literals"}
 
 func checkC02(c *core.Ctx) {
-	c.Rule = "cases are (a) LoadSchema on generated valid and faulty type systems, hand-written corner cases and grammar-directed type-blind SDL; (b) Validate on (schema, document) pairs: typed valid documents, documents with injected faults, grammar-directed type-blind documents over the schema's vocabulary (unknown types, undefined and unused variables, variables inside input objects inside unreachable fragments, unused and mutually recursive fragments, wrong value shapes, every directive everywhere); (c) twenty-four adversarial document families and twelve adversarial type-system families (interface chains and cycles reached from a type that sorts first, input-object cycles through non-null fields and defaults, deep list types and default values, wide unions, directive cycles, long extension chains, extensions of missing types) at four sizes (fragment fan-out under introspection / fields / top level / subscriptions, cycles through fields, fragments spreading each other while overlapping, deep aliases, wide selection sets with one response name). Everything runs in a child process: a crash or 20 s of silence is attributed to its input. Returned cases carry the hook-H2 recursion step counters and Total2_Trace checks them against polynomial bounds in the document size. Non-trivial = documents with at least one fragment or one error; distinct by texts"
+	c.Rule = "cases are (a) LoadSchema on generated valid and faulty type systems, hand-written corner cases and grammar-directed type-blind SDL; (b) Validate on (schema, document) pairs: typed valid documents, documents with injected faults, grammar-directed type-blind documents over the schema's vocabulary (unknown types, undefined and unused variables, variables inside input objects inside unreachable fragments, unused and mutually recursive fragments, wrong value shapes, every directive everywhere); (c) twenty-six adversarial document families and twelve adversarial type-system families (interface chains and cycles reached from a type that sorts first, input-object cycles through non-null fields and defaults, deep list types and default values, wide unions, directive cycles, long extension chains, extensions of missing types) at four sizes (fragment fan-out under introspection / fields / top level / subscriptions, cycles through fields, fragments spreading each other while overlapping, deep aliases, wide selection sets with one response name). Everything runs in a child process: a crash or 20 s of silence is attributed to its input. Returned cases carry the hook-H2 recursion step counters and Total2_Trace checks them against polynomial bounds in the document size. Non-trivial = documents with at least one fragment or one error; distinct by texts"
 	c.Assumptions = []string{
 		"termination / absence of panics is an observation of the Go runtime (child process + inactivity watchdog); the polynomial bound is stated on deterministic step counters (hook H2) with a hard budget of 30 million steps per site, not on seconds",
 		"FragTraversal.tla: the Global discipline is linear on every graph of 3 fragments with at most two spreads each; OnPath is exponential on the fan-out family (model-checked)",
